@@ -1,0 +1,30 @@
+//go:build verif
+
+package store
+
+import "github.com/uber/kraken/utils/cache"
+
+// Test-only seams for the C13 runtime monitor (/verif/harness/c13). Inert
+// without the `verif` build tag. Wrappers only.
+
+// VerifC13MemCache returns the store's memory blob cache (nil when disabled).
+func (s *CAStore) VerifC13MemCache() *cache.BlobMemoryCache { return s.memCache }
+
+// VerifC13DrainNext runs one drain step, exactly what a drain worker does on
+// one tick. No-op when the memory cache is disabled.
+func (s *CAStore) VerifC13DrainNext() {
+	if s.drain == nil {
+		return
+	}
+	s.drainNext()
+}
+
+// VerifC13DrainQueueLen returns the number of queued drain items.
+func (s *CAStore) VerifC13DrainQueueLen() int {
+	if s.drain == nil {
+		return 0
+	}
+	s.drain.mu.Lock()
+	defer s.drain.mu.Unlock()
+	return s.drain.queue.Len()
+}
